@@ -119,6 +119,15 @@ def _check_pairs(gs, counters, rng, limit=None):
             raise Viol("== / != of %r and %r: %r/%r" % (a, b, ga == gb, ga != gb))
         if (ga < gb) != (ia < ib):
             raise Viol("%r < %r gives %r but indices are %d, %d" % (a, b, ga < gb, ia, ib))
+        # the remaining comparison operators: where they are defined (no TypeError) they must agree with the index as well
+        for sym, fn, exp in ((">", lambda x, y: x > y, ia > ib), ("<=", lambda x, y: x <= y, ia <= ib), (">=", lambda x, y: x >= y, ia >= ib)):
+            try:
+                got = fn(ga, gb)
+            except TypeError:
+                counters["gt_operator_undefined"] = counters.get("gt_operator_undefined", 0) + 1
+                continue
+            if bool(got) != exp:
+                raise Viol("%r %s %r gives %r but indices are %d, %d" % (a, sym, b, got, ia, ib))
         if same != (ia == ib):
             raise Viol("model: index collision")  # cannot happen; guards the oracle
         if (hash(ga) == hash(gb)) != (ia == ib) and same:
